@@ -218,6 +218,13 @@ func (r *Runner) exec(c model.Call) model.Obs {
 		// first half of AckIDs acked, second half nacked, in ONE stream request
 		h := len(c.AckIDs) / 2
 		err = actions.VerifDoAcksNacks(ctx, r.streamer(), parseIDs(c.AckIDs[:h]), parseIDs(c.AckIDs[h:]))
+	case "streamModack":
+		// modify-deadline as the stream reader applies it (MessageStreamer.doDelay)
+		err = actions.VerifDoDelay(ctx, r.streamer(), parseIDs(c.AckIDs), c.Op.D.Seconds())
+	case "updateSubDL":
+		_, err = w.Sub.UpdateSubscription(ctx, &pubsubpb.UpdateSubscriptionRequest{
+			Subscription: &pubsubpb.Subscription{Name: model.SubPath(c.Op.Sub), DeadLetterPolicy: &pubsubpb.DeadLetterPolicy{DeadLetterTopic: model.TopicPath(c.Op.Topic), MaxDeliveryAttempts: 3}, RetryPolicy: &pubsubpb.RetryPolicy{MinimumBackoff: durationpb.New(2 * time.Second)}},
+			UpdateMask:   &fieldmaskpb.FieldMask{Paths: []string{"dead_letter_policy", "retry_policy", "expiration_policy"}}})
 	case "updateSub":
 		_, err = w.Sub.UpdateSubscription(ctx, &pubsubpb.UpdateSubscriptionRequest{
 			Subscription: &pubsubpb.Subscription{Name: model.SubPath(c.Op.Sub), Labels: map[string]string{"k": "v"}, Filter: "attributes:q", EnableMessageOrdering: true},
